@@ -26,6 +26,12 @@ CLAIMS = {
         "Trusted: sorted()/jinja sort semantics; that the C templates iterate message.signals in the layout order they receive (C06 provenance); relevance classification by the frozen sink set (cursor class of fcp.serde.encode/decode, encoding.Value, TypeVisitor.struct).",
         "DESIGN.md §4 C15",
     ),
+    "C09": (
+        "registered-check inventory (registry edges) reduced to normalised error paths (substitution, alpha-renaming, comparator decided on the ordering domain {0,1,>=2}) and matched against the frozen specification table; category-table agreement; unconditional attempt() consumption under @catch",
+        "Structural: the set of functions registered on the general verifier and by the DBC and C plug-ins equals the specification table both ways (no missing row, no check outside the table, each with the specified population, key and predicate); the category tables of Verifier, FcpV2.get and the register sites agree and hand every node of the category to the checks; every check and category verdict is attempt()ed unconditionally for every element inside @catch; checks do not write the schema. Order independence follows from the symmetric predicate forms.",
+        "Trusted: the specification table frozen from the property text (DESIGN.md A.2); Python list.count/len/in; checks written outside the recognised predicate forms are reported UNDECIDED, not decided.",
+        "DESIGN.md §4 C09",
+    ),
 }
 
 NOT_BUILT = "check not built yet in this session (see DESIGN.md §7 build order); not claimed until it exists"
